@@ -676,6 +676,7 @@ RT_SUFFIX = {"NOTES_MASTER": "notesMaster", "NOTES_SLIDE": "notesSlide", "SLIDE_
 class Walk:
     def __init__(self, prs, table, deck_id, mode, rng=None, observed_pure=None, max_saves=0, est_calls=1000):
         self.prs, self.table, self.deck, self.mode, self.rng = prs, table, deck_id, mode, rng
+        self.by_class = {}      # objects met so far, by class name: arguments for look-ups by element
         self.snap = Snap(prs)
         self.visited = set()
         self.keep = []
@@ -793,6 +794,9 @@ class Walk:
             return
         k = self.key(obj)
         self.keep.append(obj)
+        lst = self.by_class.setdefault(type(obj).__name__, [])
+        if len(lst) < 40 and all(obj is not y for y in lst):
+            lst.append(obj)
         if k in self.visited:
             return
         self.visited.add(k)
@@ -885,6 +889,38 @@ class Walk:
                     kind, v = self.call(obj, cls, row, name, lambda r=r, c=c: obj.cell(r, c), path, steps)
                     if v is not None:
                         out.append((v, "%s.cell(%d,%d)" % (path, r, c), steps + [["call", "cell", r, c]]))
+        elif name in ("index", "get", "get_by_name"):
+            # look-ups by element / key / name: with the collection's own items, with objects of the same class met elsewhere
+            # in the deck (a layout of ANOTHER master, a shape of another slide), and with keys that are not there
+            try:
+                items = list(obj)[:6]
+            except Exception:  # noqa
+                items = []
+            args = []
+            if name == "index":
+                args = list(items)
+                for it in items[:1]:
+                    pool = [x for x in self.by_class.get(type(it).__name__, []) if all(x is not y for y in items)]
+                    args += pool[:3]
+                args.append(object())
+            elif name == "get":
+                for it in items:
+                    for probe in (lambda x: x.slide_id, lambda x: x.placeholder_format.idx, lambda x: x.shape_id):
+                        try:
+                            args.append(int(probe(it)))
+                            break
+                        except Exception:  # noqa
+                            continue
+                args += [0, 1, 999999]
+            else:
+                for it in items:
+                    try:
+                        args.append(str(it.name))
+                    except Exception:  # noqa
+                        pass
+                args.append("no such name")
+            for a in args[:10]:
+                self.call(obj, cls, row, name, lambda a=a: getattr(obj, name)(a), path, steps)
         return out
 
 
@@ -1316,7 +1352,7 @@ def choose_decks(tier, rng):
     gens = [g for g, _f in GENERATORS]
     if tier == "thorough":
         return corpus + gens
-    must = [p for p in corpus if os.path.basename(p) in ("default.pptx", "ph-unpopulated-placeholders.pptx")]
+    must = [p for p in corpus if os.path.basename(p) in ("default.pptx", "ph-unpopulated-placeholders.pptx", "prs-slide-masters.pptx")]
     rest = [p for p in corpus if p not in must]
     charts = [p for p in rest if os.path.basename(p).startswith("cht-")]
     others = [p for p in rest if p not in charts]
